@@ -79,6 +79,7 @@ def case_strategy(draw):
         "matcher": None if it == "MATCHED_INSTANCE" else {"kind": "merge" if kind == "merge" else "naive", "metric": mm, "thr": draw(st.sampled_from([0.0, 0.25, 0.5, 0.75])), "m2o": kind == "naive_m2o"},
         "decision": dec, "groups": groups, "target": draw(st.integers(0, len(groups) - 1)),
         "other_pred": other.tolist(), "other_ref": other2.tolist(), "undefined": und,
+        "layout": draw(st.sampled_from(["C", "C", "F", "neg", "T"])),
         "primes": draw(st.lists(st.sampled_from(sorted(lib.PRIMES)), min_size=0, max_size=2)) if draw(st.integers(0, 2)) == 0 else [],
     }
 
@@ -114,8 +115,8 @@ def reference_result(case, g, pred, ref):
 
 def check(case, stats):
     lib.run_primes(case.get("primes"))
-    pred = np.array(case["pred"]).astype(case["dtype"])
-    ref = np.array(case["ref"]).astype(case["dtype"])
+    pred = gen.with_layout(np.array(case["pred"]).astype(case["dtype"]), case.get("layout", "C"))
+    ref = gen.with_layout(np.array(case["ref"]).astype(case["dtype"]), case.get("layout", "C"))
     groups = case["groups"]
     active = sum(1 for g in groups if np.isin(pred.astype(np.int64), g["labels"]).any() or np.isin(ref.astype(np.int64), g["labels"]).any())
     kinds = sorted({g["kind"] for g in groups})
